@@ -513,6 +513,20 @@ func RunJavascript(ctx *Context, bs *Bindings, props map[string]interface{}, src
 	defer timer.Stop()
 	Log(DEBUG, ctx, "core.RunJavascript", "code", src)
 
+	defer func() {
+		// A panic in the Javascript engine (say when a script
+		// pokes at a Go value that the engine cannot reflect
+		// on) or in one of our native functions fails this
+		// script.  It does not take the process down, which is
+		// what happens when it escapes from the goroutine of a
+		// concurrently executed action.
+		if caught := recover(); caught != nil {
+			Log(ERROR, ctx, "core.RunJavascript", "panic", fmt.Sprintf("%v", caught))
+			result = nil
+			err = fmt.Errorf("Javascript execution panicked: %v", caught)
+		}
+	}()
+
 	// https://github.com/robertkrimen/otto#otto
 	env := make(map[string]interface{})
 	envBindings := make(map[string]interface{})
